@@ -205,34 +205,56 @@ theorem actsOK_iff (c : Cfg) (l : List Act) : ActsOK c l ↔ ∀ a ∈ l, ActOK 
   | nil => simp [ActsOK]
   | cons h r ih => simp [ActsOK, ih]
 
+/-- The inductive invariant of the chain model.  Phases: nobody has claimed (`owner`, `wins = 0`) → the winner is at
+`rResolve` (slot still a chain, payload still empty) → the winner walks (`rRun`, slot `ready`, payload final) → the
+winner is `done`.  The counting clauses say where each subscribed waiter's pending release (`…W`) and each waiter
+agent's pending result read (`…O`) currently sits: in the chain, in the walker's remaining actions, with the waiter
+itself (`selfP`), or already performed (`woken` / `observed`) — always exactly one place. -/
 structure Inv (c : Cfg) (s : State) : Prop where
+  /-- owner pointer still set: nobody has won -/
   own_t : s.owner = true → s.wins = 0 ∧ s.winner = none
+  /-- owner pointer taken: exactly one win, by a recorded winner -/
   own_f : s.owner = false → s.wins = 1 ∧ ∃ w, s.winner = some w
+  /-- indices outside the configuration are not agents -/
   range : ∀ t, c.n ≤ t → s.pc t = Pc.done
+  /-- an agent's pc fits its kind -/
   kindpc : ∀ t, pcOK c t (s.pc t)
+  /-- whoever is past its claim / owner load (or is a finished resolving agent) has seen to it that the owner is taken -/
   claimed : ∀ t, passed (s.pc t) = true ∨ (t < c.n ∧ (c.kind t).cls ≠ 2 ∧ s.pc t = Pc.done) → s.owner = false
+  /-- the winner is a resolving agent, resolving, walking or finished -/
   winpc : ∀ w, s.winner = some w → w < c.n ∧ (c.kind w).cls ≠ 2
       ∧ (isResolve (s.pc w) = true ∨ isRun (s.pc w) = true ∨ s.pc w = Pc.done)
+  /-- only the winner is ever at `rResolve` / `rRun`: at most one active resolver, at most one walker -/
   active : ∀ t, isResolve (s.pc t) = true ∨ isRun (s.pc t) = true → s.winner = some t
+  /-- before the exchange: nothing stored, nobody released, a winner (if any) is still at `rResolve` -/
   chain_phase : ∀ l, s.slot = Slot.chain l → s.payload = Outcome.none ∧ (∀ x, s.woken x = 0 ∧ s.flag x = false)
       ∧ ∀ w, s.winner = some w → isResolve (s.pc w) = true
+  /-- after the exchange: the winner is past `rResolve` and the payload is the winner's -/
   ready_phase : s.slot = Slot.ready → ∃ w, s.winner = some w ∧ isResolve (s.pc w) = false ∧ s.payload = winPayload c w
+  /-- the chain is exactly the set of subscribed waiters, without duplicates -/
   chainW : ∀ l, s.slot = Slot.chain l → ∀ x, l.count x = if s.subscribed x = true then 1 else 0
+  /-- every waiter agent's result read is pending in exactly one place (chain phase) -/
   chainO : ∀ l, s.slot = Slot.chain l → ∀ x,
       s.observed x + selfP (s.pc x) + (if wkOf c x = WK.sync then 0 else l.count x) = if isW c x = true then 1 else 0
+  /-- every subscribed waiter is either released once or has exactly one pending `store` / `wake` with the walker -/
   readyW : s.slot = Slot.ready → ∀ w, s.winner = some w → ∀ x,
       s.woken x + cntW x (actsOf (s.pc w)) = if s.subscribed x = true then 1 else 0
+  /-- every waiter agent's result read is pending in exactly one place (ready phase) -/
   readyO : s.slot = Slot.ready → ∀ w, s.winner = some w → ∀ x,
       s.observed x + selfP (s.pc x) + cntO x (actsOf (s.pc w)) = if isW c x = true then 1 else 0
+  /-- where a subscribed waiter can be -/
   sub : ∀ x, s.subscribed x = true → isW c x = true ∧
       (if wkOf c x = WK.sync then
           (s.pc x = Pc.wWait ∨ s.pc x = Pc.wBlocked ∨ (s.flag x = true ∧ afterWait (s.pc x) = true))
        else (s.pc x = Pc.wFinParked ∨ s.pc x = Pc.done))
+  /-- parked pcs are reached only through a successful subscription -/
   parked : ∀ x, s.pc x = Pc.wWait ∨ s.pc x = Pc.wBlocked ∨ s.pc x = Pc.wFinParked → s.subscribed x = true
+  /-- a blocking waiter's flag is set exactly when it has been released -/
   flag_iff : ∀ x, s.flag x = true ↔ (wkOf c x = WK.sync ∧ 1 ≤ s.woken x)
+  /-- the walker's actions fit the waiters' kinds; a recorded `pending()` load saw `ready` -/
   actsok : ∀ t, ActsOK c (actsOf (s.pc t))
+  /-- a waiter reads the result only when the slot is `ready` -/
   reader : ∀ t, (s.pc t = Pc.wRead → s.slot = Slot.ready) ∧ ∀ seen, s.pc t = Pc.wRead2 seen → seen = Seen.ready ∧ s.slot = Slot.ready
-
 
 theorem inv_init (c : Cfg) : Inv c (init c) := by
   refine ⟨?_, ?_, ?_, ?_, ?_, ?_, ?_, ?_, ?_, ?_, ?_, ?_, ?_, ?_, ?_, ?_, ?_, ?_⟩ <;> simp only [init]
@@ -1274,6 +1296,81 @@ theorem obs_count (sched : List Nat) (w : Nat) :
     (runEv c (init c) sched).2.countP (isObsOf w) = (run c (init c) sched).observed w := by
   rw [← runEv_fst]
   exact obsCount_run c (init c, []) sched w (by simp [init])
+
+end
+
+section
+variable (c : Cfg)
+
+/-- well-formedness needed by the liveness statements only: the configuration contains a resolving party (at least one
+resolver call or a destructor agent).  Nothing else is assumed about a configuration: any number of agents of any
+kinds, in any order (even several destructor agents: in the model only the first one to load `_owner` resolves). -/
+def WF (c : Cfg) : Prop := ∃ t, t < c.n ∧ (c.kind t).resolving = true
+
+instance (c : Cfg) : Decidable (WF c) := inferInstanceAs (Decidable (∃ t, t < c.n ∧ (c.kind t).resolving = true))
+
+/-- quiescence: every agent of the configuration has finished -/
+def Quiescent (c : Cfg) (s : State) : Prop := ∀ t, t < c.n → s.pc t = Pc.done
+
+instance (c : Cfg) (s : State) : Decidable (Quiescent c s) :=
+  inferInstanceAs (Decidable (∀ t, t < c.n → s.pc t = Pc.done))
+
+theorem Quiescent.all {c : Cfg} {s : State} (hq : Quiescent c s) (h : Inv c s) : ∀ t, s.pc t = Pc.done := by
+  intro t
+  by_cases ht : t < c.n
+  · exact hq t ht
+  · exact h.range t (by omega)
+
+/-- `t` is a resolver call (`promise::operator()`) of the configuration -/
+def isResCall (c : Cfg) (t : Nat) : Bool :=
+  decide (t < c.n) && match c.kind t with
+    | Kind.res _ => true
+    | _ => false
+
+theorem isResCall_iff (t : Nat) : isResCall c t = true ↔ t < c.n ∧ (c.kind t).cls = 0 := by
+  unfold isResCall; cases c.kind t <;> simp [Kind.cls]
+
+end
+
+section
+variable (c : Cfg)
+
+theorem run_cons (s : State) (t : Nat) (r : List Nat) :
+    run c s (t :: r) = run c (if enabled c s t then (astep c s t).1 else s) r := by
+  simp [run, List.foldl_cons]
+
+/-- every event of a trace was emitted by an enabled step from a state reached by a prefix of the schedule -/
+theorem runEvA_mem (sched : List Nat) : ∀ (p : State × List Ev) (e : Ev), e ∈ (runEvA c p sched).2 →
+    e ∈ p.2 ∨ ∃ pre t post, sched = pre ++ t :: post ∧ enabled c (run c p.1 pre) t = true
+      ∧ e ∈ (astep c (run c p.1 pre) t).2 := by
+  induction sched with
+  | nil => intro p e h; exact Or.inl h
+  | cons t r ih =>
+    intro p e h
+    simp only [runEvA, List.foldl_cons] at h
+    by_cases hen : enabled c p.1 t = true
+    · simp only [hen, if_true] at h
+      rcases ih _ e h with h1 | ⟨pre, t', post, h1, h2, h3⟩
+      · simp only [List.mem_append] at h1
+        rcases h1 with h1 | h1
+        · exact Or.inl h1
+        · exact Or.inr ⟨[], t, r, rfl, hen, h1⟩
+      · refine Or.inr ⟨t :: pre, t', post, by simp [h1], ?_, ?_⟩
+        · rw [run_cons]; simpa [hen] using h2
+        · rw [run_cons]; simpa [hen] using h3
+    · simp only [hen] at h
+      rcases ih _ e h with h1 | ⟨pre, t', post, h1, h2, h3⟩
+      · exact Or.inl h1
+      · refine Or.inr ⟨t :: pre, t', post, by simp [h1], ?_, ?_⟩
+        · rw [run_cons]; simpa [hen] using h2
+        · rw [run_cons]; simpa [hen] using h3
+
+theorem runEv_mem (sched : List Nat) (e : Ev) (h : e ∈ (runEv c (init c) sched).2) :
+    ∃ pre t post, sched = pre ++ t :: post ∧ enabled c (run c (init c) pre) t = true
+      ∧ e ∈ (astep c (run c (init c) pre) t).2 := by
+  rcases runEvA_mem c sched (init c, []) e h with h1 | h1
+  · cases h1
+  · exact h1
 
 end
 
